@@ -76,10 +76,10 @@ Print Assumptions C28_default_refuted.
 
 (* the boundary integers: the specification accepts +-(2^53-1) at Float and 2^63 at ID, the code rejects them *)
 Theorem C28_edge_refuted :
-  ex_spec_accepts "Float" max_safe_int /\ ex_spec_accepts "Float" (- max_safe_int) /\ ex_spec_accepts "ID" two63.
+  ex_spec_accepts "Float" j_max_safe_int /\ ex_spec_accepts "Float" (- j_max_safe_int) /\ ex_spec_accepts "ID" j_two63.
 Proof. exact c28_edge_refuted. Qed.
 Check C28_edge_refuted :
-  ex_spec_accepts "Float" max_safe_int /\ ex_spec_accepts "Float" (- max_safe_int) /\ ex_spec_accepts "ID" two63.
+  ex_spec_accepts "Float" j_max_safe_int /\ ex_spec_accepts "Float" (- j_max_safe_int) /\ ex_spec_accepts "ID" j_two63.
 Print Assumptions C28_edge_refuted.
 
 (* non-vacuity: a concrete input meeting the hypotheses of the theorems, outside the known classes:
